@@ -408,3 +408,16 @@ func walkNodes(v reflect.Value, fn func(n any), depth int) {
 		}
 	}
 }
+
+// IsNilValue reports whether an interface holds a nil pointer/slice/map/func (typed nil).
+func IsNilValue(n any) bool {
+	if n == nil {
+		return true
+	}
+	v := reflect.ValueOf(n)
+	switch v.Kind() {
+	case reflect.Ptr, reflect.Slice, reflect.Map, reflect.Func, reflect.Interface:
+		return v.IsNil()
+	}
+	return false
+}
